@@ -49,6 +49,12 @@ void memory_free(void* p) { free(p); }
 static int CAP = 4, NR = 1;
 static bool USE_ACCEPT = true;
 static bool KSET_FULL = true;
+#ifdef VERIF_NO_CHANNEL_REWIND
+static const bool HAVE_REWIND = false;
+extern "C" void channel_rewind(struct channel*) {}
+#else
+static const bool HAVE_REWIND = true; // channel.h declares channel_rewind (added by the fix for stale frames seen by a late-joining monitor)
+#endif
 static std::string PROP = "C01";
 static size_t MAX_STATES = 60u * 1000 * 1000;
 static int NSAMPLES = 6;
@@ -132,7 +138,7 @@ static void decode(const uint8_t* k, State& s) {
 }
 
 // ---------------------------------------------------------------- operations
-enum OpKind : uint8_t { OP_WMAP = 1, OP_COMMIT, OP_ABORT, OP_RMAP, OP_RUNMAP, OP_ACCEPT };
+enum OpKind : uint8_t { OP_WMAP = 1, OP_COMMIT, OP_ABORT, OP_RMAP, OP_RUNMAP, OP_ACCEPT, OP_REWIND };
 struct Op { uint8_t kind, a, b; };
 static std::string op_str(Op o) {
     char buf[64];
@@ -143,6 +149,7 @@ static std::string op_str(Op o) {
         case OP_RMAP: snprintf(buf, sizeof buf, "rmap(r%d)", o.a); break;
         case OP_RUNMAP: snprintf(buf, sizeof buf, "runmap(r%d,%d)", o.a, o.b); break;
         case OP_ACCEPT: snprintf(buf, sizeof buf, "accept(%d)", o.a); break;
+        case OP_REWIND: snprintf(buf, sizeof buf, "rewind"); break;
         default: snprintf(buf, sizeof buf, "?");
     }
     return buf;
@@ -152,6 +159,7 @@ static bool parse_op(const std::string& t, Op& o) {
     if (sscanf(t.c_str(), "wmap(%d)", &a) == 1) { o = { OP_WMAP, (uint8_t)a, 0 }; return true; }
     if (t == "commit") { o = { OP_COMMIT, 0, 0 }; return true; }
     if (t == "abort") { o = { OP_ABORT, 0, 0 }; return true; }
+    if (t == "rewind") { o = { OP_REWIND, 0, 0 }; return true; }
     if (sscanf(t.c_str(), "rmap(r%d)", &a) == 1) { o = { OP_RMAP, (uint8_t)a, 0 }; return true; }
     if (sscanf(t.c_str(), "runmap(r%d,%d)", &a, &b) == 2) { o = { OP_RUNMAP, (uint8_t)a, (uint8_t)b }; return true; }
     if (sscanf(t.c_str(), "accept(%d)", &a) == 1) { o = { OP_ACCEPT, (uint8_t)a, 0 }; return true; }
@@ -300,6 +308,14 @@ static Outcome apply(State& s, Op op) {
         s.mlen[r] = 0; s.mpos[r] = 0;
         ok.notified = g_notify; return ok;
     }
+    case OP_REWIND: {
+        // channel_rewind (called by the sink at the start of an acquisition, writer idle): must be invisible to every
+        // joined reader; the oracle is simply that all later reads still agree with the committed stream
+        if (!HAVE_REWIND || s.wn) return { R_DISABLED };
+        channel_rewind(&s.ch);
+        if (g_lock_depth) return viol("C03", "lock-leak", "operation returned holding the channel lock");
+        ok.notified = g_notify; return ok;
+    }
     case OP_ACCEPT: {
         if (!USE_ACCEPT || op.a == s.accepting) return { R_DISABLED };
         channel_accept_writes(&s.ch, op.a);
@@ -326,6 +342,7 @@ static void enumerate_ops(const State& s, std::vector<Op>& out) {
         }
     }
     if (USE_ACCEPT) out.push_back({ OP_ACCEPT, (uint8_t)!s.accepting, 0 });
+    if (HAVE_REWIND && !s.wn) out.push_back({ OP_REWIND, 0, 0 });
 }
 
 // ---------------------------------------------------------------- state store
